@@ -413,4 +413,301 @@ theorem tdiv_qr_ok {s : St} (h : Inv s) {q r n d : Nat} (hq : q < s.nv) (hr : r 
       rw [mag2 n hn, mag2 d hd]; exact tdivR_eq h d hn
     · rw [v6 i (by rw [nv5']; exact hi), vo5 i (by rw [x24.nv, nv2]; exact hi) hiq hir, x24.value i2 (by rw [nv2]; exact hi), val2 i hi]
 
+/-! ### mpz_tdiv_q, mpz_tdiv_r -/
+
+theorem tdiv_q_core_ok {s : St} (h : Inv s) {q : Nat} (hq : q < s.nv)
+    {np nl dp dl : Nat} {Nl Dl : List Nat}
+    (hN : s.load np nl = .ok Nl) (hD : s.load dp dl = .ok Dl)
+    (hnq : np ≠ s.ptr q) (hdq : dp ≠ s.ptr q)
+    (hdl : 1 ≤ dl) (hle : dl ≤ nl) (hLN : Limbs Nl) (hLD : Limbs Dl)
+    (hNge : B ^ (nl - 1) ≤ val Nl) (hDge : B ^ (dl - 1) ≤ val Dl)
+    (haq : nl - dl + 1 ≤ s.alloc q) (ns ds : Int) :
+    ∃ s', tdiv_q_core q (s.ptr q) np nl dp dl ns ds s = .ok s' ∧ Inv s' ∧ Upd s s' q ∧
+      s'.value q = (if sameSign ns ds then ((val Nl / val Dl : Nat) : Int) else -((val Nl / val Dl : Nat) : Int)) := by
+  have hNlen := load_length hN
+  have hDlen := load_length hD
+  have hN2 : val Nl < B ^ nl := by have := val_lt Nl hLN; rwa [hNlen] at this
+  have hD2 : val Dl < B ^ dl := by have := val_lt Dl hLD; rwa [hDlen] at this
+  have htop : Dl.getD (dl - 1) 0 ≠ 0 := by
+    rw [val_top hLD dl hdl (by omega), List.take_of_length_le (by omega)]; exact hDge
+  obtain ⟨bq, hbq, hbql, hbqL⟩ := h.live q hq
+  have hmpn := mpn_tdiv_q_ok hN hD hbq (Ne.symm hnq) (Ne.symm hdq) hdl hle htop (by omega)
+  obtain ⟨hQlt, hQsz⟩ := quot_size hNge hN2 hDge hD2 hdl hle
+  set Q := val Nl / val Dl with hQ
+  set bq' := toLimbs (nl - dl + 1) Q ++ bq.drop (nl - dl + 1) with hbq'
+  set X := s.setBlk (s.ptr q) (some bq') with hX
+  have hXq : X.blk (s.ptr q) = some bq' := by simp [hX, St.setBlk]
+  have hlimb : limbAt X (s.ptr q) (nl - dl + 1 - 1) = .ok (Q / B ^ (nl - dl + 1 - 1) % B) := by
+    rw [limbAt_of_blk hXq (by simp [hbq', toLimbs_length]; omega)]
+    rw [hbq', getD_append_left (by rw [toLimbs_length]; omega), toLimbs_getD _ _ _ (by omega)]
+  have hQsz' : sizeNat Q ≤ nl - dl + 1 := (DivZ.sizeNat_le_iff _ _).mpr hQlt
+  have p1 := put_upd h hq bq' Q (!decide (sameSign ns ds))
+    (by rw [hbq', length_wr' (by omega)]; exact hbql) (Limbs_wr' (Limbs_toLimbs _ _) hbqL) (by omega)
+    (val_take_wr _ hQsz')
+  rw [ite_neg_bool] at p1
+  refine ⟨_, ?_, p1.1, p1.2.1, ?_⟩
+  · unfold tdiv_q_core
+    simp only [bind, Except.bind, hmpn, pure, Except.pure]
+    simp only [hlimb]
+    rw [hQsz]; rfl
+  · rw [p1.2.2, ite_neg_bool]
+
+/-- writing a live block that is not a variable's -/
+theorem setBlk_nonvar {s : St} (h : Inv s) {p : Nat} (hp : ∀ i, i < s.nv → s.ptr i ≠ p) (hlt : p < s.next)
+    (b : List Nat) :
+    Inv (s.setBlk p (some b)) ∧ (∀ i, i < s.nv → (s.setBlk p (some b)).value i = s.value i) := by
+  have hb : ∀ i, i < s.nv → (s.setBlk p (some b)).blk (s.ptr i) = s.blk (s.ptr i) := fun i hi => by
+    simp [St.setBlk, hp i hi]
+  have hv : ∀ i, i < s.nv → (s.setBlk p (some b)).value i = s.value i := fun i hi => value_congr rfl (hb i hi)
+  refine ⟨⟨fun i hi => ?_, fun i j hi hj => h.inj i j hi hj, fun i hi => h.lt i hi, fun q hq => ?_,
+    fun i hi => h.fits i hi, fun i hi => ?_⟩, hv⟩
+  · obtain ⟨c, hc, hlen, hL⟩ := h.live i hi
+    exact ⟨c, by rw [show (s.setBlk p (some b)).ptr i = s.ptr i from rfl, hb i hi, hc], hlen, hL⟩
+  · have hq' : s.next ≤ q := hq
+    have : q ≠ p := by omega
+    simp only [St.setBlk, this, if_false]; exact h.fresh q hq
+  · rw [show (s.setBlk p (some b)).size i = s.size i from rfl, hv i hi]; exact h.norm i hi
+
+theorem tdiv_r_core_ok {s : St} (h : Inv s) {r : Nat} (hr : r < s.nv)
+    {qp np nl dp dl : Nat} {Nl Dl bq : List Nat}
+    (hN : s.load np nl = .ok Nl) (hD : s.load dp dl = .ok Dl)
+    (hbq : s.blk qp = some bq) (hqv : ∀ i, i < s.nv → s.ptr i ≠ qp) (hqlt : qp < s.next)
+    (hqn : qp ≠ np) (hqd : qp ≠ dp)
+    (hnr : np ≠ s.ptr r) (hdr : dp ≠ s.ptr r)
+    (hdl : 1 ≤ dl) (hle : dl ≤ nl) (hLN : Limbs Nl) (hLD : Limbs Dl)
+    (hDge : B ^ (dl - 1) ≤ val Dl)
+    (haq : nl - dl + 1 ≤ bq.length) (har : dl ≤ s.alloc r) (ns : Int) :
+    ∃ s', tdiv_r_core r qp (s.ptr r) np nl dp dl ns s = .ok s' ∧ Inv s' ∧
+      s'.nv = s.nv ∧ (∀ i, s'.ptr i = s.ptr i) ∧
+      s'.value r = (if ns ≥ 0 then ((val Nl % val Dl : Nat) : Int) else -((val Nl % val Dl : Nat) : Int)) ∧
+      (∀ i, i < s.nv → i ≠ r → s'.value i = s.value i) := by
+  have hDlen := load_length hD
+  have hD2 : val Dl < B ^ dl := by have := val_lt Dl hLD; rwa [hDlen] at this
+  have htop : Dl.getD (dl - 1) 0 ≠ 0 := by
+    rw [val_top hLD dl hdl (by omega), List.take_of_length_le (by omega)]; exact hDge
+  obtain ⟨br, hbr, hbrl, hbrL⟩ := h.live r hr
+  have hmpn := mpn_tdiv_qr_ok hN hD hbq hbr hqn hqd (Ne.symm hnr) (Ne.symm hdr) (Ne.symm (hqv r hr)) hdl hle htop
+    haq (by omega)
+  have hDpos : 0 < val Dl := Nat.lt_of_lt_of_le (DivZ.Bpow_pos _) hDge
+  have hRlt : val Nl % val Dl < B ^ dl := Nat.lt_trans (Nat.mod_lt _ hDpos) hD2
+  set R := val Nl % val Dl with hR
+  set br' := toLimbs dl R ++ br.drop dl with hbr'
+  set Y := s.setBlk qp (some (toLimbs (nl - dl + 1) (val Nl / val Dl) ++ bq.drop (nl - dl + 1))) with hY
+  obtain ⟨iY, vY⟩ := setBlk_nonvar h hqv hqlt (toLimbs (nl - dl + 1) (val Nl / val Dl) ++ bq.drop (nl - dl + 1))
+  rw [← hY] at iY vY
+  set X := Y.setBlk (s.ptr r) (some br') with hX
+  have hXr : X.blk (s.ptr r) = some br' := by simp [hX, St.setBlk]
+  have hnorm : normSize X (s.ptr r) dl = .ok (sizeNat R) := by
+    rw [normSize_of_blk hXr, Nat.mod_eq_of_lt hRlt]
+  have hRsz : sizeNat R ≤ dl := (DivZ.sizeNat_le_iff _ _).mpr hRlt
+  have hrY : r < Y.nv := hr
+  have p2 := put_upd iY hrY br' R (!decide (ns ≥ 0))
+    (by rw [hbr', length_wr' (by omega)]; exact hbrl) (Limbs_wr' (Limbs_toLimbs _ _) hbrL)
+    (by show sizeNat R ≤ s.alloc r; omega) (val_take_wr _ hRsz)
+  rw [ite_neg_bool] at p2
+  refine ⟨_, ?_, p2.1, p2.2.1.nv, fun i => p2.2.1.ptr i, ?_, fun i hi hir => ?_⟩
+  · unfold tdiv_r_core
+    simp only [bind, Except.bind, hmpn, pure, Except.pure]
+    simp only [hnorm]
+    rfl
+  · rw [p2.2.2, ite_neg_bool]
+  · rw [p2.2.1.value_o iY hrY hi hir, vY i hi]
+
+
+theorem mag_lt_of_size_lt {s : St} (h : Inv s) {n d : Nat} (hn : n < s.nv) (hd : d < s.nv) (hds : s.size d ≠ 0)
+    (hlt : (s.size n).natAbs < (s.size d).natAbs) : (s.value n).natAbs < (s.value d).natAbs := by
+  rw [value_natAbs, value_natAbs]
+  have h1 := h.mag_lt hn
+  have h2 := h.mag_ge hd hds
+  have h3 : B ^ (s.size n).natAbs ≤ B ^ ((s.size d).natAbs - 1) := Nat.pow_le_pow_right B_pos (by omega)
+  omega
+
+theorem tdiv_q_ok {s : St} (h : Inv s) {q n d : Nat} (hq : q < s.nv) (hn : n < s.nv)
+    (hd : d < s.nv) (hd0 : s.value d ≠ 0) :
+    ∃ s', tdiv_q q n d s = .ok s' ∧ Res s s' q (DivZ.tdivQ (s.value n) (s.value d)) := by
+  have hds : s.size d ≠ 0 := fun e => hd0 ((h.size_eq_zero_iff hd).mp e)
+  unfold tdiv_q tdiv_qV
+  simp only [Variant.c, if_true, bind, Except.bind, pure, Except.pure]
+  rw [if_neg (by omega)]
+  by_cases hql : ((s.size n).natAbs : Int) - ((s.size d).natAbs : Int) + 1 ≤ 0
+  · rw [if_pos hql]
+    have hlt : (s.size n).natAbs < (s.size d).natAbs := by omega
+    obtain ⟨tq, _⟩ := DivZ.tdiv_tmod_of_natAbs_lt (mag_lt_of_size_lt h hn hd hds hlt)
+    obtain ⟨i2, u2, vq2⟩ := setSize_zero_spec h hq
+    exact ⟨_, rfl, i2, u2.nv, by rw [vq2]; exact tq.symm, fun i hi hiq => u2.value_o h hq hi hiq⟩
+  · rw [if_neg hql]
+    have hle : (s.size d).natAbs ≤ (s.size n).natAbs := by omega
+    have hqlN : (((s.size n).natAbs : Int) - ((s.size d).natAbs : Int) + 1).toNat = (s.size n).natAbs - (s.size d).natAbs + 1 := by omega
+    rw [hqlN]
+    obtain ⟨i2, nv2, size2, val2, a2, ag2⟩ := realloc_spec h hq ((s.size n).natAbs - (s.size d).natAbs + 1)
+    set s2 := s.mpzRealloc q ((s.size n).natAbs - (s.size d).natAbs + 1) with hs2
+    have hq2 : q < s2.nv := by rw [nv2]; exact hq
+    have hn2 : n < s2.nv := by rw [nv2]; exact hn
+    have hd2 : d < s2.nv := by rw [nv2]; exact hd
+    have mag2 : ∀ i, i < s.nv → s2.mag i = s.mag i := fun i hi => by
+      rw [← value_natAbs, ← value_natAbs, val2 i hi]
+    generalize hc1 : decide (True ∧ (s2.ptr d = s2.ptr q)) = c1
+    generalize hc2 : decide (True ∧ (s2.ptr n = s2.ptr q)) = c2
+    have hld := i2.load_var hd2; rw [size2] at hld
+    have hln := i2.load_var hn2; rw [size2] at hln
+    obtain ⟨dp, s3, e3, i3, x3, l3, t3, f3⟩ := copyIf_spec i2 c1 hld
+    obtain ⟨np, s4, e4, i4, x4, l4, t4, f4⟩ := copyIf_spec i3 c2 (x3.load hln)
+    rw [e3]; simp only []
+    rw [e4]; simp only []
+    have x24 := x3.trans x4
+    have hpq : s2.ptr q = s4.ptr q := (x24.ptr q).symm
+    rw [hpq]
+    have hq4 : q < s4.nv := by rw [x24.nv]; exact hq2
+    have hlt2 : ∀ i, i < s.nv → s4.ptr i < s2.next := fun i hi => by
+      rw [x24.ptr]; exact i2.lt i (by rw [nv2]; exact hi)
+    have hlt3 : ∀ i, i < s.nv → s4.ptr i < s3.next := fun i hi => Nat.lt_of_lt_of_le (hlt2 i hi) x3.next
+    have hdp : dp ≠ s4.ptr q := by
+      cases c1
+      · rw [(f3 rfl).1, x24.ptr]
+        have h' : ¬ (s2.ptr d = s2.ptr q) := by simpa using of_decide_eq_false hc1
+        exact h'
+      · rw [(t3 rfl).1]; exact Nat.ne_of_gt (hlt2 q hq)
+    have hnp : np ≠ s4.ptr q := by
+      cases c2
+      · rw [(f4 rfl).1, x24.ptr]
+        have h' : ¬ (s2.ptr n = s2.ptr q) := by simpa using of_decide_eq_false hc2
+        exact h'
+      · rw [(t4 rfl).1]; exact Nat.ne_of_gt (hlt3 q hq)
+    have hsn0 : s2.size n ≠ 0 := by rw [size2]; omega
+    have hsd0 : s2.size d ≠ 0 := by rw [size2]; exact hds
+    have hNge := i2.mag_ge hn2 hsn0; rw [size2] at hNge
+    have hDge := i2.mag_ge hd2 hsd0; rw [size2] at hDge
+    obtain ⟨s5, e5, i5, u5, vq5⟩ := tdiv_q_core_ok i4 hq4 l4 (x4.load l3) hnp hdp
+      (by omega) hle (i2.limbs_spec hn2).2 (i2.limbs_spec hd2).2 hNge hDge
+      (by rw [x24.alloc]; exact a2) (s.size n) (s.size d)
+    rw [e5]; simp only []
+    have nv5' : s5.nv = s.nv := by rw [u5.nv, x24.nv, nv2]
+    obtain ⟨i6, nv6, v6⟩ := free_list_inv ((if c1 = true then [dp] else []) ++ if c2 = true then [np] else []) i5
+      (fun p hp i hi => by
+        rw [nv5'] at hi
+        rw [u5.ptr]
+        rcases List.mem_append.mp hp with hp | hp
+        · cases c1
+          · simp at hp
+          · simp at hp; rw [hp, (t3 rfl).1]; exact Nat.ne_of_lt (hlt2 i hi)
+        · cases c2
+          · simp at hp
+          · simp at hp; rw [hp, (t4 rfl).1]; exact Nat.ne_of_lt (hlt3 i hi))
+    refine ⟨_, rfl, i6, by rw [nv6, nv5'], ?_, fun i hi hiq => ?_⟩
+    · rw [v6 q (by rw [nv5']; exact hq), vq5]
+      show (if sameSign (s.size n) (s.size d) then ((s2.mag n / s2.mag d : Nat) : Int) else -((s2.mag n / s2.mag d : Nat) : Int)) = _
+      rw [mag2 n hn, mag2 d hd]; exact tdivQ_eq h hn hd
+    · rw [v6 i (by rw [nv5']; exact hi), u5.value_o i4 hq4 (by rw [x24.nv, nv2]; exact hi) hiq,
+        x24.value i2 (by rw [nv2]; exact hi), val2 i hi]
+
+theorem tdiv_r_ok {s : St} (h : Inv s) {r n d : Nat} (hr : r < s.nv) (hn : n < s.nv)
+    (hd : d < s.nv) (hd0 : s.value d ≠ 0) :
+    ∃ s', tdiv_r r n d s = .ok s' ∧ Res s s' r (DivZ.tdivR (s.value n) (s.value d)) := by
+  have hds : s.size d ≠ 0 := fun e => hd0 ((h.size_eq_zero_iff hd).mp e)
+  obtain ⟨i1, n1, sz1, v1, a1, ag1⟩ := realloc_spec h hr (s.size d).natAbs
+  set s1 := s.mpzRealloc r (s.size d).natAbs with hs1
+  unfold tdiv_r tdiv_rV
+  simp only [Variant.c, if_true, bind, Except.bind, pure, Except.pure]
+  rw [if_neg (by omega)]
+  simp only [← hs1]
+  have hr1 : r < s1.nv := by rw [n1]; exact hr
+  have hn1 : n < s1.nv := by rw [n1]; exact hn
+  by_cases hql : ((s.size n).natAbs : Int) - ((s.size d).natAbs : Int) + 1 ≤ 0
+  · rw [if_pos hql]
+    have hlt : (s.size n).natAbs < (s.size d).natAbs := by omega
+    obtain ⟨_, tr⟩ := DivZ.tdiv_tmod_of_natAbs_lt (mag_lt_of_size_lt h hn hd hds hlt)
+    by_cases hnr : n = r
+    · subst hnr
+      simp only [ne_eq, not_true_eq_false, if_false]
+      exact ⟨_, rfl, i1, n1, by rw [v1 n hn]; exact tr.symm, fun i hi _ => v1 i hi⟩
+    · rw [if_pos hnr]
+      have hl := i1.load_var hn1; rw [sz1] at hl
+      rw [hl]; simp only []
+      obtain ⟨X, eX, iX, nX, vrX, voX⟩ := assign_spec i1 hr1 hn1 (by rw [sz1]; omega)
+      rw [eX]; simp only []
+      have hXn : X.size n = s1.size n := by unfold St.size; rw [store_vars eX]
+      rw [hXn]
+      exact ⟨_, rfl, iX, by rw [nX, n1], by rw [vrX, v1 n hn]; exact tr.symm,
+        fun i hi hir => by rw [voX i (by rw [n1]; exact hi) hir, v1 i hi]⟩
+  · rw [if_neg hql]
+    have hle : (s.size d).natAbs ≤ (s.size n).natAbs := by omega
+    have hqlN : (((s.size n).natAbs : Int) - ((s.size d).natAbs : Int) + 1).toNat = (s.size n).natAbs - (s.size d).natAbs + 1 := by omega
+    rw [hqlN]
+    -- the scratch quotient
+    set ql := (s.size n).natAbs - (s.size d).natAbs + 1 with hqldef
+    set s2 := (s1.tmpAlloc ql).2 with hs2
+    have hqp : (s1.tmpAlloc ql).1 = s1.next := rfl
+    rw [hqp]
+    have i2 : Inv s2 := malloc_inv i1 (List.replicate ql junk)
+    have x12 : Ext s1 s2 := malloc_ext i1 (List.replicate ql junk)
+    have hqpb : s2.blk s1.next = some (List.replicate ql junk) := malloc_blk_new s1 (List.replicate ql junk)
+    have nv2 : s2.nv = s.nv := by rw [x12.nv, n1]
+    have hr2 : r < s2.nv := by rw [nv2]; exact hr
+    have hn2 : n < s2.nv := by rw [nv2]; exact hn
+    have hd2 : d < s2.nv := by rw [nv2]; exact hd
+    have size2 : ∀ i, s2.size i = s.size i := fun i => by rw [x12.size, sz1]
+    have val2 : ∀ i, i < s.nv → s2.value i = s.value i := fun i hi => by
+      rw [x12.value i1 (by rw [n1]; exact hi), v1 i hi]
+    have mag2 : ∀ i, i < s.nv → s2.mag i = s.mag i := fun i hi => by
+      rw [← value_natAbs, ← value_natAbs, val2 i hi]
+    have next2 : s2.next = s1.next + 1 := rfl
+    generalize hc1 : decide (True ∧ (s2.ptr d = s2.ptr r)) = c1
+    generalize hc2 : decide (True ∧ (s2.ptr n = s2.ptr r)) = c2
+    have hld := i2.load_var hd2; rw [size2] at hld
+    have hln := i2.load_var hn2; rw [size2] at hln
+    obtain ⟨dp, s3, e3, i3, x3, l3, t3, f3⟩ := copyIf_spec i2 c1 hld
+    obtain ⟨np, s4, e4, i4, x4, l4, t4, f4⟩ := copyIf_spec i3 c2 (x3.load hln)
+    rw [e3]; simp only []
+    rw [e4]; simp only []
+    have x24 := x3.trans x4
+    have hpr : s2.ptr r = s4.ptr r := (x24.ptr r).symm
+    rw [hpr]
+    have hr4 : r < s4.nv := by rw [x24.nv]; exact hr2
+    have hlt1 : ∀ i, i < s.nv → s4.ptr i < s1.next := fun i hi => by
+      rw [x24.ptr, x12.ptr]; exact i1.lt i (by rw [n1]; exact hi)
+    have hlt2 : ∀ i, i < s.nv → s4.ptr i < s2.next := fun i hi => by have := hlt1 i hi; omega
+    have hlt3 : ∀ i, i < s.nv → s4.ptr i < s3.next := fun i hi => Nat.lt_of_lt_of_le (hlt2 i hi) x3.next
+    have hdp : dp ≠ s4.ptr r ∧ s1.next ≠ dp := by
+      cases c1
+      · rw [(f3 rfl).1, x24.ptr]
+        have h' : ¬ (s2.ptr d = s2.ptr r) := by simpa using of_decide_eq_false hc1
+        exact ⟨h', by have := hlt1 d hd; rw [x24.ptr] at this; omega⟩
+      · rw [(t3 rfl).1]; exact ⟨Nat.ne_of_gt (hlt2 r hr), by omega⟩
+    have hnp : np ≠ s4.ptr r ∧ s1.next ≠ np := by
+      cases c2
+      · rw [(f4 rfl).1, x24.ptr]
+        have h' : ¬ (s2.ptr n = s2.ptr r) := by simpa using of_decide_eq_false hc2
+        exact ⟨h', by have := hlt1 n hn; rw [x24.ptr] at this; omega⟩
+      · rw [(t4 rfl).1]; exact ⟨Nat.ne_of_gt (hlt3 r hr), by have := x3.next; omega⟩
+    have hsd0 : s2.size d ≠ 0 := by rw [size2]; exact hds
+    have hDge := i2.mag_ge hd2 hsd0; rw [size2] at hDge
+    have hqpb4 : s4.blk s1.next = some (List.replicate ql junk) := by
+      rw [x24.blk _ (by rw [hqpb]; simp), hqpb]
+    obtain ⟨s5, e5, i5, nv5, p5, vr5, vo5⟩ := tdiv_r_core_ok i4 hr4 l4 (x4.load l3) hqpb4
+      (fun i hi => by rw [x24.nv, nv2] at hi; exact Nat.ne_of_lt (hlt1 i hi))
+      (by have := x24.next; omega) hnp.2 hdp.2 hnp.1 hdp.1
+      (by omega) hle (i2.limbs_spec hn2).2 (i2.limbs_spec hd2).2 hDge
+      (by simp [hqldef]) (by rw [x24.alloc, x12.alloc]; exact a1) (s.size n)
+    rw [e5]; simp only []
+    have nv5' : s5.nv = s.nv := by rw [nv5, x24.nv, nv2]
+    obtain ⟨i6, nv6, v6⟩ := free_list_inv (s1.next :: (if c1 = true then [dp] else []) ++ if c2 = true then [np] else []) i5
+      (fun p hp i hi => by
+        rw [nv5'] at hi
+        rw [p5]
+        rcases List.mem_append.mp hp with hp | hp
+        · rcases List.mem_cons.mp hp with hp | hp
+          · rw [hp]; exact Nat.ne_of_lt (hlt1 i hi)
+          · cases c1
+            · simp at hp
+            · simp at hp; rw [hp, (t3 rfl).1]; exact Nat.ne_of_lt (hlt2 i hi)
+        · cases c2
+          · simp at hp
+          · simp at hp; rw [hp, (t4 rfl).1]; exact Nat.ne_of_lt (hlt3 i hi))
+    refine ⟨_, rfl, i6, by rw [nv6, nv5'], ?_, fun i hi hir => ?_⟩
+    · rw [v6 r (by rw [nv5']; exact hr), vr5]
+      show (if s.size n ≥ 0 then ((s2.mag n % s2.mag d : Nat) : Int) else -((s2.mag n % s2.mag d : Nat) : Int)) = _
+      rw [mag2 n hn, mag2 d hd]; exact tdivR_eq h d hn
+    · rw [v6 i (by rw [nv5']; exact hi), vo5 i (by rw [x24.nv, nv2]; exact hi) hir,
+        x24.value i2 (by rw [nv2]; exact hi), val2 i hi]
+
 end Mpir.AliasMem
